@@ -49,12 +49,13 @@ Section Preflight.
       - apply app_eq_nil in Hp. destruct Hp as [_ Hp]. apply app_eq_nil in Hp. exact Hp.
       - apply app_eq_nil in Hp. destruct Hp as [H1 Hp]. apply app_eq_nil in Hp. destruct Hp as [H2 _]. auto. }
     destruct Hesc as [He Hd]. unfold check_ns_escalation in He. apply N.eqb_neq in Hns. rewrite Hns in He.
-    destruct (k_ns (key_of ow p) =? 0) eqn:E0; cbn [negb] in He.
-    - rewrite Es in He. destruct nsd; [|discriminate].
+    destruct (negb (k_ns (key_of ow p) =? 0) && negb (k_ns (key_of ow p) =? oi_ns (ow_id ow))) eqn:E0; [discriminate|].
+    rewrite Es in He. destruct nsd; [|discriminate]. split; [|reflexivity].
+    (* the key is defaulted: its namespace is the owner's unless the spec names another one *)
+    apply andb_false_iff in E0. destruct E0 as [E0|E0].
+    - apply negb_false_iff, N.eqb_eq in E0.
       unfold check_dryrun in Hd. destruct (po_dryreject p); [discriminate|]. rewrite Es, E0 in Hd. discriminate.
-    - destruct (k_ns (key_of ow p) =? oi_ns (ow_id ow)) eqn:E1; [|discriminate]. apply N.eqb_eq in E1. split; [assumption|].
-      unfold check_dryrun in Hd. destruct (po_dryreject p); [discriminate|]. rewrite Es in Hd. destruct nsd; [reflexivity|].
-      rewrite E0 in Hd. discriminate.
+    - now apply negb_false_iff, N.eqb_eq in E0.
   Qed.
 
   (** C11, rollout: every write of a namespaced ObjectSet / same-cluster ObjectSetPhase stays in its
